@@ -53,6 +53,11 @@ func (f *BufferedFormatter) WithSchema(schema *ast.Schema) *BufferedFormatter {
 	return f
 }
 
+func (f *BufferedFormatter) WithVariableDefinitions(defs ast.VariableDefinitionList) *BufferedFormatter {
+	f.Formatter.WithVariableDefinitions(defs)
+	return f
+}
+
 func (f *BufferedFormatter) Copy() *BufferedFormatter {
 
 	return &BufferedFormatter{
@@ -85,6 +90,8 @@ type Formatter struct {
 	operationName *string
 	operationType ast.Operation
 	schema        *ast.Schema
+	// default values the client declared for its variables
+	variableDefaults map[string]string
 
 	padNext  bool
 	lineHead bool
@@ -117,6 +124,18 @@ func (f *Formatter) WithOperationType(operationType ast.Operation) *Formatter {
 
 func (f *Formatter) WithSchema(schema *ast.Schema) *Formatter {
 	f.schema = schema
+	return f
+}
+
+// WithVariableDefinitions passes the variable definitions of the client operation, so that
+// default values are declared again in the formatted query
+func (f *Formatter) WithVariableDefinitions(defs ast.VariableDefinitionList) *Formatter {
+	f.variableDefaults = make(map[string]string)
+	for _, def := range defs {
+		if def.DefaultValue != nil {
+			f.variableDefaults[def.Variable] = def.DefaultValue.String()
+		}
+	}
 	return f
 }
 
@@ -434,7 +453,11 @@ func (f *Formatter) FormatSelectionSet(sets ast.SelectionSet) {
 	} else {
 		var tuples []string
 		for argName, argType := range args {
-			tuples = append(tuples, fmt.Sprintf("$%s: %s", argName, argType))
+			tuple := fmt.Sprintf("$%s: %s", argName, argType)
+			if def, ok := f.variableDefaults[argName]; ok {
+				tuple += " = " + def
+			}
+			tuples = append(tuples, tuple)
 		}
 		// persistant order
 		sort.Strings(tuples)
